@@ -585,8 +585,47 @@ impl Monitor for M {
         ]
     }
 
-    fn floors(&self, _tier: Tier) -> Vec<(&'static str, u64)> {
-        vec![]
+    fn floors(&self, tier: Tier) -> Vec<(&'static str, u64)> {
+        // about a third of what a quick run observes; the thorough tier is 20x larger
+        let m = tier.pick(1, 15);
+        let mut v = vec![
+            ("unit_cases_run", 33),
+            ("unit_cases_equal_to_TeX_golden", 33),
+            ("known_reproducers_run", known_cases().len() as u64),
+        ];
+        for (name, q) in [
+            ("lists_hyphenated", 1_000_000u64),
+            ("lists_with_inserted_discretionary", 800_000),
+            ("lists_with_ligature", 400_000),
+            ("lists_with_implicit_kern", 150_000),
+            ("lists_with_left_boundary_ligature", 60_000),
+            ("lists_with_right_boundary_ligature", 120_000),
+            ("words_tried", 1_400_000),
+            ("words_tried_with_permitted_positions", 1_000_000),
+            ("words_tried:longer_than_63_letters", 50_000),
+            ("words_not_tried:followed_by_box_rule_disc_math", 80_000),
+            ("words_not_tried:too_short", 150_000),
+            ("words_not_tried:minimums_exceed_63", 40_000),
+            ("(1)_words_restored_node_for_node", 1_500_000),
+            ("discs_inserted", 2_500_000),
+            ("(2)_discs_conserving_letters", 2_500_000),
+            ("(2b)_pre_breaks_equal_translation", 2_500_000),
+            ("(2b)_post_breaks_prefix_of_translation", 2_500_000),
+            ("(2c)_post_breaks_starting_at_the_left_boundary", 20_000),
+            ("discs_with_replace_count>0", 400_000),
+            ("discs_replacing_a_ligature", 130_000),
+            ("discs_with_post_break", 190_000),
+            ("discs_with_pre_break_beyond_the_hyphen", 400_000),
+            ("permitted_positions", 2_000_000),
+            ("permitted_positions_taken", 2_000_000),
+            ("permitted_positions_passed_over_inside_replaced_letters", 7_000),
+            ("positions_removed_by_minimums", 450_000),
+            ("(3)_words_with_all_permitted_positions_accounted_for", 1_000_000),
+            ("excluded_from_(1):TeX_reconstitutes_with_following_char_ligature", 1_000),
+        ] {
+            v.push((name, q * m));
+        }
+        v
     }
 
     fn calibrate(&self, obs: &mut Obs) {
